@@ -59,9 +59,13 @@ HashConfig(s) ==
       K  == 1 + ((s \div 96) % 3)
       h  == IF d = 2 THEN Cells2[ci] ELSE Cells3[ci]
       n  == IF ni = 0 THEN 5 ELSE 9
-  IN  [ H |-> h, ppp |-> MasksOf(d)[mi], S |-> 2, types |-> HTypes(s, n, K),
-        frames |-> [f \in 1..nf |-> [i \in 1..n |-> [k \in 1..d |-> HPos(s, f, i, k, h[k][k])]]],
-        sharp |-> (IF DyadicCell(h) THEN 1 ELSE 0), id |-> s ]
+      \* three-frame members with two species: the cell is sheared from frame to frame (tilts change,
+      \* edge lengths do not), as in a simple-shear run
+      Sh(a, b) == [k \in 1..d |-> [j \in 1..d |-> IF j < k THEN h[k][j] + (IF (k + j) % 2 = 1 THEN a ELSE b) ELSE h[k][j]]]
+      base == [ H |-> h, ppp |-> MasksOf(d)[mi], S |-> 2, types |-> HTypes(s, n, K),
+                frames |-> [f \in 1..nf |-> [i \in 1..n |-> [k \in 1..d |-> HPos(s, f, i, k, h[k][k])]]],
+                sharp |-> (IF DyadicCell(h) THEN 1 ELSE 0), id |-> s ]
+  IN  IF nf = 3 /\ K = 2 THEN base @@ [Hs |-> <<h, Sh(3, 0 - 2), Sh(0 - 5, 4)>>] ELSE base
 RMat(K) == IF K = 1 THEN << <<7>> >>
            ELSE IF K = 2 THEN << <<6, 9>>, <<4, 8>> >>
            ELSE << <<6, 9, 5>>, <<4, 8, 10>>, <<7, 3, 6>> >>
